@@ -1,7 +1,7 @@
 """Helpers shared by the engine-L property scripts."""
 import random, time, zlib
 from engines.llsym import terms as T
-from engines.llsym.llexec import Executor, ExecError, PanicReached, SymbolicControl
+from engines.llsym.llexec import Executor, ExecError, PanicReached, SymbolicControl, Unsupported
 from engines.llsym.intenc import IntEnc, Lin
 from engines.llsym import prove as PR
 from engines.llsym.smt import run_solver, parse_model, BVEmitter
@@ -66,9 +66,15 @@ def sym_run(built, drv, executor_setup=None, concrete=None):
     ex.wide = {}
     for name, (p, eb, cnt) in outptr.items():
         if eb == 1 and cnt % 8 == 0 and cnt:
-            ex.wide[name] = ex.read_words(p, cnt // 8, 8)
+            try:
+                ex.wide[name] = ex.read_words(p, cnt // 8, 8)
+            except ExecError:
+                pass      # output not (fully) written on this path
     for name, (p, eb, cnt) in outptr.items():
-        outs[name] = ex.read_words(p, cnt, eb)
+        try:
+            outs[name] = ex.read_words(p, cnt, eb)
+        except ExecError:
+            outs[name] = None
     return ex, ins, outs
 
 
@@ -228,3 +234,200 @@ def bv_equal(ob, pairs, built, drv, native_ok, timeout=60, assumptions=(), key=N
             return ob.fail(detail, "%s-bv" % solver, time.time() - t0)
         return ob.unknown("BV model does not reproduce natively", "%s-bv" % solver, time.time() - t0)
     return ob.unknown("solver: " + v, "%s-bv" % solver, time.time() - t0)
+
+
+# ---------------------------------------------------------------------------
+# path exploration (forking by re-execution with a decision list)
+
+class Path:
+    def __init__(self):
+        self.conds = []      # (1-bit term, taken value)
+        self.outcome = None  # 'ret' | 'panic' | 'error'
+        self.info = None
+        self.ins = None
+        self.outs = None
+        self.steps = 0
+
+
+def _feasible(conds, timeout):
+    """is the conjunction of (term == val) satisfiable?  returns 'sat'/'unsat'/'unknown', model"""
+    em = BVEmitter()
+    asr = ["(= %s %s)" % (em.ref(c, 1), "#b1" if v else "#b0") for c, v in conds]
+    v, mod, dt = run_solver(em.script(asr), "z3", timeout)
+    if v == "sat":
+        return "sat", parse_model(mod)
+    if v == "unsat":
+        return "unsat", None
+    return "unknown", None
+
+
+def explore(built, drv, concrete=None, max_paths=48, feas_timeout=20, max_steps=20_000_000):
+    """all paths of a driver whose branches may depend on symbolic data.
+    Infeasible sides are pruned with the solver; 'unknown' sides are kept
+    (they only matter if they end in a panic, which is then re-checked)."""
+    work = [[]]
+    paths = []
+    nq = 0
+    while work and len(paths) < max_paths:
+        decisions = work.pop()
+        path = Path()
+        pos = [0]
+
+        def policy(ex_, c, where, decisions=decisions, path=path, pos=pos):
+            nonlocal nq
+            i = pos[0]
+            pos[0] += 1
+            if i < len(decisions):
+                path.conds.append((c, decisions[i]))
+                return decisions[i]
+            # new branch: which sides are feasible?
+            sides = []
+            for val in (1, 0):
+                st, _ = _feasible(path.conds + [(c, val)], feas_timeout)
+                nq += 1
+                if st != "unsat":
+                    sides.append(val)
+            if not sides:
+                raise ExecError("both sides of a branch infeasible at %s" % where)
+            take = sides[0]
+            if len(sides) == 2:
+                work.append(decisions[:i] + [sides[1]])
+            decisions.append(take)
+            path.conds.append((c, take))
+            return take
+
+        def setup(ex_):
+            ex_.branch_policy = policy
+            ex_.max_steps = max_steps
+        try:
+            ex, ins, outs = sym_run(built, drv, executor_setup=setup, concrete=concrete)
+            path.outcome, path.ins, path.outs, path.steps = "ret", ins, outs, ex.steps
+        except PanicReached as e:
+            path.outcome, path.info = "panic", {"callee": e.callee, "where": e.where}
+        except SymbolicControl as e:
+            path.outcome, path.info = "error", {"msg": str(e)}
+        except ExecError as e:
+            path.outcome, path.info = "error", {"msg": str(e)}
+        paths.append(path)
+    return paths, nq, bool(work)
+
+
+def native_crashes(built, drv, inputs, timeout=60):
+    """run the native driver in a child process; True if it aborts (panic)"""
+    import json, subprocess, sys, glob, os
+    so = glob.glob(os.path.join(built.scratch.target, "release", "deps", "libcrrl*.so"))[0]
+    d = built.drivers[drv]
+    code = r"""
+import ctypes, json, sys
+so, name, params, inputs = json.loads(sys.argv[1])
+lib = ctypes.CDLL(so)
+f = getattr(lib, name); f.restype = None
+args = []
+for n, kind, eb, cnt in params:
+    cty = {1: ctypes.c_uint8, 2: ctypes.c_uint16, 4: ctypes.c_uint32, 8: ctypes.c_uint64}[eb]
+    if kind == "in":
+        args.append((cty * cnt)(*[int(v) for v in inputs[n]]))
+    elif kind == "out":
+        args.append((cty * cnt)())
+    else:
+        args.append(cty(int(inputs[n])))
+f(*args)
+print("RETURNED")
+"""
+    p = subprocess.run([sys.executable, "-c", code, json.dumps([so, drv, d.params, inputs])],
+                       stdout=subprocess.PIPE, stderr=subprocess.PIPE, text=True, timeout=timeout)
+    return "RETURNED" not in p.stdout, (p.stderr or "")[-400:]
+
+
+# ---------------------------------------------------------------------------
+# cut points located by simulation (word-level sweeping)
+
+def discover_cuts(roots, envs, values, nlimbs, lb, prefix, timeout=20):
+    """`values[e]` is an integer (per sample env e) expected to be held by the
+    DAG in `nlimbs` limbs of `lb` bits (possibly packed into wider words).
+    Returns (primaries, variables, mapping) where primaries[k] is the DAG
+    term chosen as limb k, variables[k] a fresh variable standing for it and
+    mapping {term id -> replacement over the variables} covers every node
+    that the solver proves equal to a packing of the primaries."""
+    memos = [T.evaluate_all(roots, e) for e in envs]
+    nodes = T.topo(roots)
+    bysig = {}
+    for t in nodes:
+        if t.op == "var":
+            continue
+        sig = tuple(m[t.id] for m in memos)
+        bysig.setdefault(sig, []).append(t)
+    M = (1 << lb) - 1
+    prim = []
+    for k in range(nlimbs):
+        sig = tuple((v >> (lb * k)) & M for v in values)
+        cands = [t for t in bysig.get(sig, []) if t.w >= lb]
+        if not cands:
+            return None
+        cands.sort(key=lambda t: (t.w, t.id))
+        prim.append(cands[0])
+    vs = [T.var("%s%d" % (prefix, k), lb) for k in range(nlimbs)]
+    mapping = {}
+    nq = 0
+    for i in range(nlimbs):
+        for j in range(i, nlimbs):
+            bits = lb * (j - i + 1)
+            sig = tuple((v >> (lb * i)) & ((1 << bits) - 1) for v in values)
+            for N in bysig.get(sig, []):
+                if N.w < bits or N.id in mapping:
+                    continue
+
+                def pack(xs, w):
+                    e = 0
+                    for k, x in enumerate(xs):
+                        xx = T.t_zext(T.t_trunc(x, lb) if (isinstance(x, T.Term) and x.w > lb) else x, w)
+                        e = T.t_add(e, T.t_shl(xx, lb * k, w), w) if k else xx
+                    return e
+                if i == j and N is prim[i]:
+                    mapping[N.id] = T.t_zext(vs[i], N.w)
+                    continue
+                Ep = pack(prim[i:j + 1], N.w)
+                if Ep is N:
+                    mapping[N.id] = pack(vs[i:j + 1], N.w)
+                    continue
+                # prove N == packing of the primaries (over-approximated cones, shared cut variables)
+                ok = False
+                for depth in (6, 12):
+                    em = BVEmitter()
+                    a, b = T.cut(N, depth), T.cut(Ep, depth)
+                    if a is b:
+                        ok = True
+                        break
+                    v, _, _ = run_solver(em.script(["(distinct %s %s)" % (em.ref(a, N.w), em.ref(b, N.w))],
+                                                   get_model=False), "z3", timeout)
+                    nq += 1
+                    if v == "unsat":
+                        ok = True
+                        break
+                if ok:
+                    mapping[N.id] = pack(vs[i:j + 1], N.w)
+    return prim, vs, mapping, nq
+
+
+def status_word_exact(term, width=32, timeout=20):
+    """is the term always 0 or all-ones?  Tries over-approximations first
+    (deep sub-terms cut to fresh variables).  returns ('unsat'|'sat'|'unknown', model)"""
+    from engines.llsym.smt import bvc
+    if not isinstance(term, T.Term):
+        return ("unsat" if term in (0, (1 << width) - 1) else "sat"), {}
+    A1 = (1 << width) - 1
+    for depth in (8, 16, 32):
+        em0 = BVEmitter()
+        sr0 = em0.ref(T.cut(term, depth), width)
+        v0, _, _ = run_solver(em0.script(["(and (distinct %s %s) (distinct %s %s))"
+                                          % (sr0, bvc(0, width), sr0, bvc(A1, width))], get_model=False),
+                              "z3", timeout)
+        if v0 == "unsat":
+            return "unsat", None
+    em = BVEmitter()
+    sr = em.ref(term, width)
+    v, mod, dt = run_solver(em.script(["(and (distinct %s %s) (distinct %s %s))"
+                                       % (sr, bvc(0, width), sr, bvc(A1, width))]), "z3", timeout * 3)
+    if v == "sat":
+        return "sat", parse_model(mod)
+    return ("unsat" if v == "unsat" else "unknown"), None
